@@ -1,4 +1,265 @@
-(* Par.v -- stub; the model that belongs here is being written. *)
+(* Par.v -- model of the multi-folder extraction paths of py7zr (py7zr/py7zr.py):
+
+     SevenZipFile._extract   l.619-631   parallel = not password_protected and not _filePassed
+     Worker.extract          l.1272-1342 one folder: extract_single on the caller's handle;
+                                         several folders, not parallel: empty members, then folder by folder
+                                         on the caller's handle (an exception propagates at once: the later
+                                         folders are never touched);
+                                         several folders, parallel: empty members in the caller, then one
+                                         Thread (mp=False) or Process (mp=True) per selected folder, each
+                                         given the archive's *name*; start all, join all, then
+                                         `if exc_q.empty(): pass else: raise exc_q.get()[1]`
+     Worker.extract_single   l.1344-1370 `fp = open(fp, "rb")` when given a name (own handle per worker);
+                                         with exc_q: every Exception is put on exc_q and the worker ends
+     Worker._extract_single / decompress   per member: open the output "wb" (create/truncate, position 0),
+                                         write chunk after chunk (each <= get_memory_limit()), compare the
+                                         CRC after the last chunk, go on with the next member
+     SevenZipFile._extract   l.635-655   (path target only) utime/chmod of every registered output file:
+                                         a file that was never created raises FileNotFoundError here
+
+   A worker is the list of atomic actions its folder's packed bytes determine (its decoder, its handle
+   and its position in the output file are its own); the outputs are shared (a filesystem / a factory),
+   the exception channel is shared between threads and *copied* into processes: exc_q is a thread
+   queue.Queue created in the parent and duplicated by fork, so what a child puts there never reaches
+   the parent, and neither do the MemIO products a child creates.
+
+   Definitions only; the proofs are in ParProofs.v.  stdlib only, no axioms. *)
 From P7 Require Import Prelude.
-Open Scope Z_scope.
-Definition par_dispatch (fn : Z) (a : tree) : tree := TL [TI (-2)].
+From Coq Require Import Arith PeanoNat.
+Local Open Scope nat_scope.
+
+(* ------------------------------------------------------------------ actions and states *)
+Inductive action :=
+| ACreate (o : nat)                  (* fileish.open("wb"): create or truncate output o, own position := 0 *)
+| AWrite (o : nat) (bs : bytes)      (* obfp.write(chunk) at the worker's own position *)
+| AFail (e : err).                   (* an exception leaves _extract_single: queued (or raised), worker ends *)
+
+Notation worker := (list action).
+Definition outmap := nat -> option bytes.      (* None: the output does not exist *)
+
+Record wst := mkW { w_done : list action;      (* actions performed so far (history, never read by step) *)
+                    w_pos : nat;               (* position of the worker's own output handle *)
+                    w_rem : list action }.     (* actions still to perform *)
+Record st := mkS { s_out : outmap; s_chan : list (nat * err); s_ws : list wst }.
+
+Definition upd (m : outmap) (o : nat) (v : option bytes) : outmap :=
+  fun x => if Nat.eqb x o then v else m x.
+Definition cur (m : outmap) (o : nat) : bytes := match m o with Some b => b | None => [] end.
+
+(* a write of bs at position pos into a file whose content is c (the hole, if any, reads as zeros) *)
+Definition wr (c : bytes) (pos : nat) (bs : bytes) : bytes :=
+  firstn pos (c ++ repeatZ 0%Z (pos - length c)) ++ bs ++ skipn (pos + length bs) c.
+
+(* effect of one action on the outputs and on the acting worker's position *)
+Definition aout (a : action) (m : outmap) (pos : nat) : outmap :=
+  match a with
+  | ACreate o => upd m o (Some [])
+  | AWrite o bs => upd m o (Some (wr (cur m o) pos bs))
+  | AFail _ => m
+  end.
+Definition apos (a : action) (pos : nat) : nat :=
+  match a with ACreate _ => 0 | AWrite _ bs => pos + length bs | AFail _ => pos end.
+Definition afp (a : action) : list nat :=
+  match a with ACreate o => [o] | AWrite o _ => [o] | AFail _ => [] end.
+Definition fp (w : worker) : list nat := flat_map afp w.
+
+Fixpoint set_nth {A} (i : nat) (x : A) (l : list A) : list A :=
+  match l, i with
+  | [], _ => []
+  | _ :: r, O => x :: r
+  | y :: r, S i' => y :: set_nth i' x r
+  end.
+
+(* one scheduling decision: worker i performs its next action (nothing happens when it has none) *)
+Definition step (i : nat) (s : st) : st :=
+  match nth_error (s_ws s) i with
+  | None => s
+  | Some w =>
+    match w_rem w with
+    | [] => s
+    | a :: rest =>
+      mkS (aout a (s_out s) (w_pos w))
+          (match a with AFail e => s_chan s ++ [(i, e)] | _ => s_chan s end)
+          (set_nth i (mkW (w_done w ++ [a]) (apos a (w_pos w))
+                          (match a with AFail _ => [] | _ => rest end)) (s_ws s))
+    end
+  end.
+
+Definition run (sched : list nat) (s : st) : st := fold_left (fun s i => step i s) sched s.
+Definition init (o0 : outmap) (ws : list worker) : st :=
+  mkS o0 [] (map (fun w => mkW [] 0 w) ws).
+Definition finished (s : st) : bool :=
+  forallb (fun w => match w_rem w with [] => true | _ => false end) (s_ws s).
+(* a schedule is complete for a set of workers when it lets every one of them end *)
+Definition complete (sched : list nat) (o0 : outmap) (ws : list worker) : Prop :=
+  finished (run sched (init o0 ws)) = true.
+
+(* the schedule "one worker after the other, each to its end" *)
+Fixpoint seq_from (i : nat) (ws : list worker) : list nat :=
+  match ws with [] => [] | w :: r => repeat i (length w) ++ seq_from (S i) r end.
+Definition seq_sched (ws : list worker) : list nat := seq_from 0 ws.
+Definition sequential (o0 : outmap) (ws : list worker) : st := run (seq_sched ws) (init o0 ws).
+
+(* the sequential path of Worker.extract: folder by folder in the caller; the first exception propagates,
+   the later folders are not touched *)
+Fixpoint seq_abort_from (i : nat) (ws : list worker) (s : st) : st :=
+  match ws with
+  | [] => s
+  | w :: r => let s' := run (repeat i (length w)) s in
+              match s_chan s' with [] => seq_abort_from (S i) r s' | _ :: _ => s' end
+  end.
+Definition seq_abort (o0 : outmap) (ws : list worker) : st := seq_abort_from 0 ws (init o0 ws).
+
+(* ------------------------------------------------------------------ a worker on its own *)
+(* the actions a worker really performs: up to and including its first failure *)
+Fixpoint eff (w : worker) : worker :=
+  match w with
+  | [] => []
+  | AFail e :: _ => [AFail e]
+  | a :: r => a :: eff r
+  end.
+Fixpoint first_fail (w : worker) : option err :=
+  match w with [] => None | AFail e :: _ => Some e | _ :: r => first_fail r end.
+Fixpoint lrun (acts : list action) (m : outmap) (pos : nat) : outmap * nat :=
+  match acts with
+  | [] => (m, pos)
+  | a :: r => lrun r (aout a m pos) (apos a pos)
+  end.
+
+Fixpoint disjoint_from (seen : list nat) (ws : list worker) : bool :=
+  match ws with
+  | [] => true
+  | w :: r => forallb (fun o => negb (existsb (Nat.eqb o) seen)) (fp w) && disjoint_from (fp w ++ seen) r
+  end.
+Definition disjointb (ws : list worker) : bool := disjoint_from [] ws.
+(* every output belongs to at most one worker *)
+Definition disjoint (ws : list worker) : Prop :=
+  forall i j wi wj o, i <> j -> nth_error ws i = Some wi -> nth_error ws j = Some wj ->
+                      In o (fp wi) -> ~ In o (fp wj).
+
+(* ------------------------------------------------------------------ what the caller sees *)
+Inductive mode := MSeq | MThreads | MProcs.
+Inductive target := TFile | TMem.     (* extractall(path) | extractall(factory=...) *)
+
+(* `if exc_q.empty(): pass else: raise exc_q.get()[1]` -- the first exception queued *)
+Definition result_of (ch : list (nat * err)) : res unit :=
+  match ch with [] => Ok tt | (_, e) :: _ => Err e end.
+
+Definition exists_out (m : outmap) (o : nat) : bool := match m o with Some _ => true | None => false end.
+Definition targets (ws : list worker) : list nat := flat_map fp ws.
+(* utime/chmod over the registered files (path target only; the factory variant returns before) *)
+Definition post_pass (t : target) (tg : list nat) (m : outmap) : res unit :=
+  match t with
+  | TMem => Ok tt
+  | TFile => if forallb (exists_out m) tg then Ok tt else Err EOther
+  end.
+
+Definition after (r : res unit) (k : res unit) : res unit := match r with Ok _ => k | Err e => Err e end.
+
+(* extractall on an archive whose selected folders are ws; `pre` are the empty members, which the
+   caller handles itself before any worker is started (its exceptions propagate directly) *)
+Definition extract (md : mode) (t : target) (sched : list nat) (o0 : outmap) (pre : worker) (ws : list worker)
+  : outmap * res unit :=
+  let o1 := fst (lrun (eff pre) o0 0) in
+  match first_fail pre with
+  | Some e => (o1, Err e)
+  | None =>
+    match md with
+    | MSeq => let s := seq_abort o1 ws in
+              (s_out s, after (result_of (s_chan s)) (post_pass t (fp pre ++ targets ws) (s_out s)))
+    | MThreads => let s := run sched (init o1 ws) in
+              (s_out s, after (result_of (s_chan s)) (post_pass t (fp pre ++ targets ws) (s_out s)))
+    | MProcs => let s := run sched (init o1 ws) in
+              (* the children's queue is a copy: the parent's stays empty; files are on the shared
+                 filesystem, factory products live and die in the children *)
+              (match t with TFile => s_out s | TMem => o1 end,
+               post_pass t (fp pre ++ targets ws) (s_out s))
+    end
+  end.
+
+(* _extract l.619-631 and Worker.extract l.1277, 1291: which path is taken *)
+Definition select_mode (mp password_protected by_name : bool) (nfolders : nat) : mode :=
+  if Nat.leb nfolders 1 then MSeq
+  else if negb password_protected && by_name then (if mp then MProcs else MThreads)
+  else MSeq.
+
+(* two SevenZipFile objects extracting at the same time: the workers of both run interleaved; each
+   object has its own queue (exc_q is local to its Worker.extract call): it sees the entries of its own
+   workers only *)
+Definition chan_of (lo hi : nat) (ch : list (nat * err)) : list (nat * err) :=
+  filter (fun p => Nat.leb lo (fst p) && Nat.ltb (fst p) hi) ch.
+
+(* ------------------------------------------------------------------ output names (_extract l.577-583) *)
+(* first occurrence of a name keeps it, the k-th repetition (k >= 1) becomes name_<k-1> *)
+Definition bytes_eq_dec : forall a b : bytes, {a = b} + {a <> b} := list_eq_dec Z.eq_dec.
+Fixpoint dec_aux (fuel n : nat) (acc : bytes) : bytes :=
+  match fuel with
+  | O => acc
+  | S f => let d := (Z.of_nat (n mod 10) + 48)%Z in
+           if Nat.eqb (n / 10) 0 then d :: acc else dec_aux f (n / 10) (d :: acc)
+  end.
+Definition dec (n : nat) : bytes := dec_aux (S n) n [].
+Fixpoint outnames_from (seen : list bytes) (names : list bytes) : list bytes :=
+  match names with
+  | [] => []
+  | n :: r =>
+    let k := count_occ bytes_eq_dec seen n in
+    (match k with O => n | S k' => n ++ [95%Z] ++ dec k' end) :: outnames_from (n :: seen) r
+  end.
+Definition outnames (names : list bytes) : list bytes := outnames_from [] names.
+
+(* ------------------------------------------------------------------ dispatcher (FN 240-259) *)
+Definition of_nat_t (t : tree) : nat := Z.to_nat (of_TI t).
+Definition of_err (z : Z) : err :=
+  match z with 1%Z => EBad7z | 2%Z => ECrc | 3%Z => EPassword | 4%Z => EUnsupported | 5%Z => EEof | 7%Z => EFuel | _ => EOther end.
+(* action: (0 o) | (1 o bytes) | (2 errcode) *)
+Definition of_action (t : tree) : action :=
+  match of_TI (tnth t 0) with
+  | 0%Z => ACreate (of_nat_t (tnth t 1))
+  | 1%Z => AWrite (of_nat_t (tnth t 1)) (of_bytes (tnth t 2))
+  | _ => AFail (of_err (of_TI (tnth t 1)))
+  end.
+Definition of_worker (t : tree) : worker := map of_action (of_TL t).
+Definition of_workers (t : tree) : list worker := map of_worker (of_TL t).
+Definition of_sched (t : tree) : list nat := map of_nat_t (of_TL t).
+Definition t_nat (n : nat) : tree := TI (Z.of_nat n).
+Definition t_outs (n : nat) (m : outmap) : tree := TL (map (fun o => t_opt t_bytes (m o)) (seq 0 n)).
+Definition t_chan (ch : list (nat * err)) : tree := TL (map (fun p => TL [t_nat (fst p); t_err (snd p)]) ch).
+Definition t_unit_res (r : res unit) : tree := t_res (fun _ => TL []) r.
+Definition of_mode (z : Z) : mode := match z with 0%Z => MSeq | 1%Z => MThreads | _ => MProcs end.
+Definition of_target (z : Z) : target := match z with 0%Z => TFile | _ => TMem end.
+Definition none_map : outmap := fun _ => None.
+
+Definition par_dispatch (fn : Z) (a : tree) : tree :=
+  match fn with
+  (* FN 240 par_extract : (mode target sched pre workers nouts) -> (outs result) *)
+  | 240%Z =>
+      let r := extract (of_mode (of_TI (tnth a 0))) (of_target (of_TI (tnth a 1))) (of_sched (tnth a 2))
+                       none_map (of_worker (tnth a 3)) (of_workers (tnth a 4)) in
+      TL [t_outs (of_nat_t (tnth a 5)) (fst r); t_unit_res (snd r)]
+  (* FN 241 par_run : (sched workers nouts) -> (outs chan finished remaining) *)
+  | 241%Z =>
+      let s := run (of_sched (tnth a 0)) (init none_map (of_workers (tnth a 1))) in
+      TL [t_outs (of_nat_t (tnth a 2)) (s_out s); t_chan (s_chan s); t_bool (finished s);
+          TL (map (fun w => t_nat (length (w_rem w))) (s_ws s))]
+  (* FN 242 par_disjoint : workers -> bool *)
+  | 242%Z => t_bool (disjointb (of_workers a))
+  (* FN 243 par_select_mode : (mp password_protected by_name nfolders) -> 0 seq | 1 threads | 2 processes *)
+  | 243%Z =>
+      TI (match select_mode (of_bool (tnth a 0)) (of_bool (tnth a 1)) (of_bool (tnth a 2)) (of_nat_t (tnth a 3)) with
+          | MSeq => 0%Z | MThreads => 1%Z | MProcs => 2%Z end)
+  (* FN 244 par_outnames : names -> names *)
+  | 244%Z => TL (map t_bytes (outnames (map of_bytes (of_TL a))))
+  (* FN 245 par_two : (sched workersA workersB nouts) -> (outs resultA resultB finished) *)
+  | 245%Z =>
+      let wa := of_workers (tnth a 1) in
+      let wb := of_workers (tnth a 2) in
+      let s := run (of_sched (tnth a 0)) (init none_map (wa ++ wb)) in
+      TL [t_outs (of_nat_t (tnth a 3)) (s_out s);
+          t_unit_res (result_of (chan_of 0 (length wa) (s_chan s)));
+          t_unit_res (result_of (chan_of (length wa) (length wa + length wb) (s_chan s)));
+          t_bool (finished s)]
+  (* FN 246 par_seq_sched : workers -> sched *)
+  | 246%Z => TL (map t_nat (seq_sched (of_workers a)))
+  | _ => TL [TI (-2)%Z]
+  end.
